@@ -238,8 +238,32 @@ fn run(ctx: &Ctx, c: &Case) -> PResult {
                 Op::Write(v, attr, sel, x, y, kind, seed) => {
                     let k = *v as usize % nv;
                     let var = &c.vars[k];
-                    let range = range_string(*sel, *x, *y);
-                    let value = if *kind == 8 { Variant::Empty } else { make_value(*kind, *seed) };
+                    let mut range = range_string(*sel, *x, *y);
+                    let mut value = if *kind == 8 { Variant::Empty } else { make_value(*kind, *seed) };
+                    // steer a share of the writes to well-formed range writes: a range inside the array the model holds
+                    // and exactly as many values of the element type
+                    if *sel % 10 == 4 || *sel % 10 == 3 {
+                        if let Some(Variant::Array(cur)) = &model[k] {
+                            if !cur.values.is_empty() {
+                                let a = *x as usize % cur.values.len();
+                                let b = if *sel % 10 == 3 { a } else { a + (*y as usize % (cur.values.len() - a)) };
+                                range = Some(if *sel % 10 == 3 { format!("{}", a) } else { format!("{}:{}", a, b.max(a + 1).min(cur.values.len() - 1).max(a)) });
+                                let (a, b) = match range.as_ref().unwrap().parse::<NumericRange>() {
+                                    Ok(NumericRange::Range(a, b)) => (a as usize, b as usize),
+                                    _ => (a, a),
+                                };
+                                let elems: Vec<Variant> = (0..(b - a + 1))
+                                    .map(|j| match cur.value_type {
+                                        VariantTypeId::Int32 => Variant::Int32(*seed as i32 * 3 + j as i32),
+                                        VariantTypeId::Byte => Variant::Byte((*seed as u8).wrapping_mul(3).wrapping_add(j as u8)),
+                                        _ => Variant::from(make_string(seed.wrapping_add(j as u16), false)),
+                                    })
+                                    .collect();
+                                value = Variant::from((cur.value_type, elems));
+                            }
+                        }
+                    }
+                    let kind = &(if let Variant::Array(a) = &value { match a.value_type { VariantTypeId::Int32 => 5u8, VariantTypeId::Byte => 7, VariantTypeId::String => 6, _ => *kind } } else { *kind });
                     let before = raw_value(&server, &id(k));
                     let h = conn.header(&token);
                     let req = WriteRequest {
